@@ -39,6 +39,10 @@ PowCases ==
     <<"float", <<2, 1>>, RInt(2)>>, <<"float", <<-1, 1>>, RInt(-1)>>, <<"float", <<1, 2>>, R(1, 2)>>,
     <<"float", <<3, 2>>, R(3, 2)>>, <<"float", <<-1, 2>>, R(-1, 2)>>, <<"float", <<1, 3>>, R(1, 3)>>,
     <<"fraction", <<1, 2>>, R(1, 2)>>, <<"fraction", <<2, 1>>, RInt(2)>>,
+    \* the same numbers as NumPy scalars (an element of an array, the result of a NumPy computation)
+    <<"np.float64", <<1, 2>>, R(1, 2)>>, <<"np.float64", <<3, 2>>, R(3, 2)>>, <<"np.float64", <<-1, 2>>, R(-1, 2)>>,
+    <<"np.float64", <<2, 1>>, RInt(2)>>, <<"np.float32", <<1, 2>>, R(1, 2)>>, <<"np.float32", <<1, 4>>, R(1, 4)>>,
+    <<"np.int64", <<2>>, RInt(2)>>, <<"np.int64", <<-1>>, RInt(-1)>>,
     <<"np.power", <<2>>, RInt(2)>>, <<"np.power", <<1, 2>>, R(1, 2)>>,
     <<"np.sqrt", <<>>, R(1, 2)>>, <<"np.cbrt", <<>>, R(1, 3)>> }
 
